@@ -17,7 +17,7 @@ const PAD_OP: i64 = -1;
 fn reg(x: u32) -> Register { Register(x as usize) }
 
 /// one generic entry point per opcode: wire-order operand values -> the writer's emit_* method
-fn emit_generic(w: &mut BytecodeWriter, op: u8, v: &[u32]) -> Result<(), String> {
+pub fn emit_generic(w: &mut BytecodeWriter, op: u8, v: &[u32]) -> Result<(), String> {
     let need = |n: usize| if v.len() == n { Ok(()) } else { Err(format!("opcode {} expects {} operands, row has {}", op, n, v.len())) };
     let r = |i: usize| reg(v[i]);
     let c = |i: usize| ConstPoolIdx(v[i]);
@@ -141,7 +141,7 @@ impl Put for u8 { fn put(&self, v: &mut Vec<u32>) { v.push(*self as u32) } }
 impl Put for Vec<Register> { fn put(&self, v: &mut Vec<u32>) { v.push(self.len() as u32); for r in self { v.push(r.0 as u32) } } }
 
 /// instruction VARIANT -> (opcode number, wire-order operand values); independent of the opcode byte the reader reports
-fn inst_vals(inst: &BytecodeInstruction) -> (u8, Vec<u32>) {
+pub fn inst_vals(inst: &BytecodeInstruction) -> (u8, Vec<u32>) {
     use BytecodeInstruction as I;
     let mut v: Vec<u32> = Vec::new();
     macro_rules! p { ($op:ident; $($a:expr),*) => {{ $( $a.put(&mut v); )* opc::$op }}; }
@@ -582,7 +582,7 @@ fn process(lines: Vec<(usize, String)>, files: &[String], selftest: bool, st_bud
         if row.get("items").is_none() { continue; }
         p.rows += 1;
         match check_row(&row) {
-            Some((what, detail)) => { p.nbad += 1; if p.bad.len() < 10 { p.bad.push(json!({"kind":"mismatch","what":what,"detail":detail,"items":row["items"],"file":files[fi]})); } }
+            Some((what, detail)) => { p.nbad += 1; if p.bad.len() < 10 { p.bad.push(json!({"kind":"mismatch","what":what,"detail":detail,"items":row["items"],"row":row,"file":files[fi]})); } }
             None => {
                 let mut len = 0u64;
                 for s in row["code"].as_array().unwrap() { len += if s["t"] == "b" { s["b"].as_array().unwrap().len() as u64 } else { s["n"].as_u64().unwrap() }; }
